@@ -101,15 +101,21 @@ def run(ctx):
         base = rng.sample(base, 45)
     cases, meta = [], []
     skipped = 0
+    # a program whose Run is expensive is expensive in every layout: its variants are compared on Compile (accept/reject, tree) only,
+    # otherwise one pathological pattern costs a watchdog period per variant
+    pre = vh.run_cases([{"op": "e2e", "src_hex": vh.hexs(src), "texts_hex": [vh.hexs(t) for t in TEXTS]} for src in base], timeout_ms=2000, shards=12)
+    expensive = {src for src, r in zip(base, pre) if outcome(r)[0] == "fail"}
+    ctx.coverage["programs_compared_on_compile_only"] = len(expensive)
     for src in base:
         vs = variants(rng, src, limit=60 if quick else None)
         if vs is None:
             skipped += 1
             continue
-        cases.append({"op": "e2e", "src_hex": vh.hexs(src), "texts_hex": [vh.hexs(t) for t in TEXTS]})
+        texts = [] if src in expensive else [vh.hexs(t) for t in TEXTS]
+        cases.append({"op": "e2e", "src_hex": vh.hexs(src), "texts_hex": texts})
         meta.append((src, "original", src))
         for name, v in vs:
-            cases.append({"op": "e2e", "src_hex": vh.hexs(v), "texts_hex": [vh.hexs(t) for t in TEXTS]})
+            cases.append({"op": "e2e", "src_hex": vh.hexs(v), "texts_hex": texts})
             meta.append((src, name, v))
     res = vh.run_cases(cases, shards=12)
     orig = {}
